@@ -123,6 +123,10 @@ impl Engine for C01 {
         {
             out.push(Case { algo: ALGOS[i % 2], blob: Blob::new(len, 300 + i as u64), other: Blob::new(9, 400), dmg, bufs: vec![65536], threads: 6 });
         }
+        // entries larger than what one file read delivers (2 MiB on tokio), read with ONE read_exact
+        for (i, len) in [(2usize << 20) + 77, 5_000_000].into_iter().enumerate() {
+            out.push(Case { algo: ALGOS[i % 2], blob: Blob::new(len, 500 + i as u64), other: Blob::new(9, 402), dmg: CDamage::FlipBit(len * 8 - 3), bufs: vec![usize::MAX - 1], threads: 0 });
+        }
         // zero runs at the granularities sparse-file tricks work with
         for (i, (len, fill)) in [(131072usize, blob::Fill::Zero), (262144, blob::Fill::Zero), (393216, blob::Fill::ZeroTail), (196608, blob::Fill::ZeroTail), (65536, blob::Fill::Zero), (393216, blob::Fill::ZeroHead)].into_iter().enumerate() {
             out.push(Case { algo: ALGOS[i % 5], blob: Blob { len, salt: 3, fill }, other: Blob::new(9, 401), dmg: CDamage::FlipBit(len * 8 - 1), bufs: vec![], threads: 0 });
@@ -187,7 +191,7 @@ impl Engine for C01 {
                 continue;
             }
             // large entries: the pristine pass is thinned (hashing MiBs 19 times per case is the cost)
-            if orig.len() > 65536 && (h >> 7) % 4 != 0 && !matches!(step.op, Op::Extract { kind: XKind::HardLink, .. }) {
+            if orig.len() > 65536 && (h >> 7) % 4 != 0 && !matches!(step.op, Op::Extract { kind: XKind::HardLink, .. }) && !(matches!(step.op, Op::Stream { .. }) && c.bufs.first() == Some(&(usize::MAX - 1))) {
                 continue;
             }
             let r = run_step(&ctx, &step);
